@@ -6,7 +6,7 @@ from vpbt import gen_graphs as gg, graph_checks as G, models as M, sweep
 from vpbt.core import exc_sig
 
 PID = "C02"
-RULE = 'Cases: closed CFGs (<=2 ordered distinct successors, one entry, all blocks reachable and reaching an exit) from (a) exhaustive lexicographic enumeration of all labelled graphs with n<=4 blocks and a seed-offset slice (quick) / all (thorough) of n=5, canonical BFS-numbered forms of n=6,7 with name-style relabellings (thorough), (b) Hypothesis strategy closed_cfgs (modes uniform/local/motif/structured/dense, construction+repair, name styles num/perm/bytecode/alpha), (c) CFG shapes of standard-library functions computed by an own dis-based builder, (d) CFG shapes that the source front end builds for generated functions, (e) 16 coverage-guided libFuzzer campaigns (atheris; bytes decoded into block count, name style, arity and targets per block, then the same deterministic repair; origin fuzz); every case is run through the stage prefixes closed, loop, branch (and restructure() for even sizes). Distinct = canonical hash of the named input graph. Plus Hypothesis graphs up to 36 (quick) / 80 (thorough) blocks. Non-trivial = the input has a cycle or a block with two successors.'
+RULE = 'Cases: closed CFGs (<=2 ordered distinct successors, one entry, all blocks reachable and reaching an exit) from (a) exhaustive lexicographic enumeration of all labelled graphs with n<=4 blocks and a seed-offset slice (quick) / all (thorough) of n=5, canonical BFS-numbered forms of n=6,7 with name-style relabellings (thorough), (b) Hypothesis strategy closed_cfgs (modes uniform/local/motif/structured/dense, construction+repair, name styles num/perm/bytecode/alpha), (c) CFG shapes of standard-library functions computed by an own dis-based builder, (d) CFG shapes that the source front end builds for generated functions, (e) 16 coverage-guided libFuzzer campaigns (atheris; bytes decoded into block count, name style, arity and targets per block, then the same deterministic repair; origin fuzz); every case is run through the stage prefixes closed, loop, branch (and restructure() for even sizes). Distinct = canonical hash of the named input graph. Plus Hypothesis graphs up to 36 (quick) / 80 (thorough) blocks, plus large regular graphs (chain, if/else ladder, long loop body with two exits, row of early returns) with 255-300 blocks (to 1030 in the thorough tier), i.e. across size thresholds such as 256. Non-trivial = the input has a cycle or a block with two successors.'
 ASSUME = []
 LINE_BUDGET = 5_000_000
 WATCHDOG_S = 30
@@ -79,6 +79,56 @@ def _eval(col, intg, g, origin):
     col.case(gg.gkey(g), len(g), gg.nontrivial_shape(g), sample=dict(graph=gg.graph_to_str(g), blocks=len(g), origin=origin, classes=classes), classes=classes + ["origin:" + origin])
 
 
+# sizes around the thresholds where an implementation detail may change behaviour (small-int cache at 256, ...)
+def _big_chain(n):
+    return {i: ((i + 1,) if i + 1 < n else ()) for i in range(n)}
+
+
+def _big_ladder(n):
+    g, i = {}, 0
+    while i + 3 < n:
+        g[i], g[i + 1], g[i + 2] = (i + 1, i + 2), (i + 3,), (i + 3,)
+        i += 3
+    for j in range(i, n):
+        g[j] = (j + 1,) if j + 1 < n else ()
+    return g
+
+
+def _big_loop(n):
+    g = {0: (1,)}
+    for i in range(1, n - 2):
+        g[i] = (i + 1,)
+    g[n - 2] = (1, n - 1)
+    g[n - 1] = ()
+    g[n // 2] = (n // 2 + 1, n - 1)
+    return g
+
+
+def _big_returns(n):
+    g = {}
+    for i in range(0, n - 1, 2):
+        g[i] = (i + 1, i + 2) if i + 2 < n else (i + 1,)
+        g[i + 1] = ()
+    g[n - 1] = ()
+    return {k: tuple(t for t in v if t < n) for k, v in sorted(g.items())}
+
+
+BIG = [(f, n) for n in (255, 256, 257, 258, 300) for f in (_big_chain, _big_loop)] + [(_big_ladder, 257), (_big_returns, 257), (_big_returns, 300)]
+BIG_THOROUGH = BIG + [(_big_chain, 520), (_big_loop, 520), (_big_chain, 1030), (_big_loop, 1030), (_big_ladder, 300), (_big_returns, 520)]
+
+
+def _run_big(spec):
+    from vpbt.core import Collector
+
+    col = Collector()
+    f, n = (BIG_THOROUGH if spec[2] == "thorough" else BIG)[spec[1]]
+    intg = f(n)
+    assert gg.is_closed(intg), (f.__name__, n)
+    col.count("origin_big")
+    _eval(col, intg, gg.restyle(intg, "num"), "big")
+    return col.result()
+
+
 def replay(inp):
     g = gg.graph_from_json(inp["graph"])
     r = _run_stage(g, inp.get("stage", "branch"), inp.get("payload", "plain"))
@@ -96,10 +146,16 @@ def plan(tier, seed):
     specs = sweep.plan(tier, seed, fuzz_mod=__name__)
     if tier == "quick":
         specs += [("hyp", seed + 7919, s, 40, 36) for s in range(16)]
+        specs = [s_ for s_ in specs if s_[0] != "big"]
+        specs = [("big", k, tier) for k in range(len(BIG))] + specs
     else:
+        specs = [s_ for s_ in specs if s_[0] != "big"]
         specs += [("hyp", seed + 7919, s, 600, 80) for s in range(32)]
+        specs = [("big", k, tier) for k in range(len(BIG_THOROUGH))] + specs
     return specs
 
 
 def run(spec):
+    if spec[0] == "big":
+        return _run_big(spec)
     return sweep.run(spec, _eval)
